@@ -207,6 +207,60 @@ async fn run_case<TC: Configuration>(cc: &CaseCtx, case: &HistCase, rng: &mut Rn
                 judge(l, cls, label, p, cur, None, &w);
             }
         }
+        // ---- A9: internally consistent, tree-inconsistent forgeries: a field is replaced AND the leaf hash
+        // in the existence proof is recomputed to match, so only the Merkle path up to the root can reject
+        {
+            let mut p = hp.clone();
+            p.value = AkdValue(b"forged-consistent".to_vec());
+            p.existence_proof.hash_val = AzksValue(TC::hash_leaf_with_value(&p.value, p.epoch, &p.commitment_nonce).0);
+            judge(l, "A9-value-forged-leaf-hash-recomputed", label, p, cur, None, &w);
+            for de in [-1i64, 1] {
+                let ne = hp.epoch as i64 + de;
+                if ne >= 1 {
+                    let mut p = hp.clone();
+                    p.epoch = ne as u64;
+                    p.existence_proof.hash_val = AzksValue(TC::hash_leaf_with_value(&p.value, p.epoch, &p.commitment_nonce).0);
+                    judge(l, "A9-epoch-forged-leaf-hash-recomputed", label, p, cur, None, &w);
+                }
+            }
+            let mut p = hp.clone();
+            p.commitment_nonce = rng.bytes(32);
+            p.value = AkdValue(b"forged-nonce".to_vec());
+            p.existence_proof.hash_val = AzksValue(TC::hash_leaf_with_value(&p.value, p.epoch, &p.commitment_nonce).0);
+            judge(l, "A9-value-and-nonce-forged-leaf-hash-recomputed", label, p, cur, None, &w);
+            // an invented newer version: right VRF proofs and node labels, leaf hash consistent with the claim,
+            // Merkle paths borrowed from the nearest real node
+            let v = latest.version + 1;
+            if v <= cur {
+                let val = b"invented".to_vec();
+                let fl = forge.node_label(label, true, v).await;
+                let nonce = forge.nonce(&fl, v, &val);
+                if let Some(mut p) = forge.lookup_proof(label, v, &val, cur, None).await {
+                    p.commitment_nonce = nonce.clone();
+                    p.existence_proof = forge.membership_forced(&fl, AzksValue(TC::hash_leaf_with_value(&AkdValue(val.clone()), cur, &nonce).0));
+                    let mv = 1u64 << (63 - v.leading_zeros());
+                    let ml = forge.node_label(label, true, mv).await;
+                    if !forge.view.is_leaf(&ml) {
+                        p.marker_proof = forge.membership_forced(&ml, p.existence_proof.hash_val);
+                    }
+                    judge(l, "A9-invented-version-forced-label", label, p, cur, None, &w);
+                }
+            }
+            // the marker proof replaced by a forced one (right label, borrowed path, arbitrary hash)
+            {
+                let mut p = hp.clone();
+                let ml = p.marker_proof.label;
+                let mut h = p.marker_proof.hash_val;
+                h.0[0] ^= 1;
+                p.marker_proof = forge.membership_forced(&ml, h);
+                judge(l, "A9-marker-proof-hash-altered", label, p, cur, None, &w);
+                let mut p = hp.clone();
+                if p.marker_proof.sibling_proofs.len() >= 2 {
+                    p.marker_proof.sibling_proofs.remove(0);
+                    judge(l, "A9-marker-proof-path-truncated", label, p, cur, None, &w);
+                }
+            }
+        }
         if let Some(older) = versions.get(1) {
             let mut p = hp.clone();
             p.value = AkdValue(older.value.clone());
